@@ -75,7 +75,9 @@ claim('C02', 'operator/precedence table extraction (type-checked HIR) + arm-wise
       'Thin: decides the structural clauses only. Operator token tables of lowering and type checker agree (one known finding, F26: `&` unknown to the checker); in the arithmetic/compare kernels the arm of operator X computes with machine operation X; integer results are built only through the widen -> try_from range-check constructors; the right operand of AND/OR is control-dependent on the left value with the IEC polarity; WHILE tests before the body, REPEAT after, with the right polarity, and re-tests on every iteration; FOR rejects step 0, tests before each iteration, leaves only on strict passing of the end value in the direction of the step, and increments on every way back (also CONTINUE); binding powers order the operator classes per the spec; output parameters are written back after the callee frame is popped. Numerical agreement with a reference evaluator on all programs/inputs is value-level and not decided.',
       _TB, 'DESIGN.md section 4 / C02')
 
+claim('C16', 'gate dominance (edge cuts) on every edit-producing path + who-may-call + value provenance of edit range/text + conflict-test scope coverage over rustc MIR',
+      'Thin: decides the structural clauses only. Every rename edit (rename_symbol, rename_field, namespace move) is behind is_valid_identifier, is_reserved_keyword and the conflict test on every path; only `rename` enters the edit-producing functions (whole workspace call graph incl. LSP, web IDE, wasm); an edit range is exactly a Reference.range returned by the reference search and its text exactly the validated new name; the conflict test resolves the new name through enclosing scopes and inspects nested scopes (F27, fixed). Equality of diagnostics and behaviour after the rename, completeness of the reference search and exact reversibility are value-level and not decided.',
+      _TB, 'DESIGN.md section 4 / C16')
+
 _PENDING = 'check not built yet in this commit (work in progress; see DESIGN.md section 10 for the build order)'
-for _p in ['C16']:
-    na(_p, _PENDING)
 na('C15', 'formatting token-sequence preservation and idempotence are equalities between values computed by string manipulation; no shape-of-code fact is a necessary condition that a realistic breaking edit would violate (DESIGN.md section 5)')
